@@ -27,6 +27,7 @@ import PhQVerif.Checkers
 import PhQVerif.Generated.Obl_C01k32
 import PhQVerif.Generated.Obl_C01k64
 import PhQVerif.Generated.Obl_C01k80
+import PhQVerif.Theory.Round
 
 namespace PhQVerif.Props.C01
 open PhQVerif Generated
@@ -68,6 +69,21 @@ theorem scale_constant_real_bound {fm : Fm} {ek : Nat} {want : Meaning} {ke K : 
     obtain ⟨h1, h2⟩ := enclose_sound want hd
     obtain ⟨h3, h4⟩ := within_sound h
     exact ⟨k, rfl, h1, h2, h3, h4⟩
+
+/-- **C01 (one conversion step, end to end).** For a kernel `x ↦ x·K` whose constant is within relative
+`c` of the factor `A` its unit's symbol implies (`kernels_match_their_symbols` gives `c = 4·2^-p` for
+every unit and format, up to the 10^-20 width of the π enclosure), the value the code computes is
+within relative `u·(1+c) + c` of the exact `x·A`: about five units in the last place, for every finite
+non-zero `x` of either sign whose result neither underflows nor overflows. A conversion between two
+units is two such steps (C02), so about ten. -/
+theorem conversion_step_accuracy (fm : Fm) (s1 s2 : Bool) (m1 m2 : Nat) (e1 e2 : Int)
+    (h1 : 0 < m1) (h2 : 0 < m2) (A c : ℝ) (hA : 0 < A) (hc : 0 ≤ c)
+    (hK : |Fl.toReal (.fin s2 m2 e2) - A| ≤ c * A)
+    (hnorm : fm.fmt.minNormal ≤ |Fl.toReal (.fin s1 m1 e1) * Fl.toReal (.fin s2 m2 e2)|)
+    {r : Fl} (hr : Fl.mul fm.fmt (.fin s1 m1 e1) (.fin s2 m2 e2) = r) (hfin : r.isFinite = true) :
+    |Fl.toReal r - Fl.toReal (.fin s1 m1 e1) * A| ≤
+      (fm.fmt.u * (1 + c) + c) * (|Fl.toReal (.fin s1 m1 e1)| * A) :=
+  Fl.mul_const_accuracy fm.fmt (by cases fm <;> decide) s1 s2 m1 m2 e1 e2 h1 h2 A c hA hc hK hnorm hr hfin
 
 /-! ### Non-vacuity -/
 
